@@ -6,7 +6,7 @@ import itertools
 
 from mc import pool, wire, refms, wire_engine as W
 
-NAME_POOL = ["a", "OK", "NO x", "{3}", "x ACTIVE", 'a"b', "a\\b", "é", '"', "ACTIVE", "b c", "{3+}", "cafe\u0301", "\u212b"]
+NAME_POOL = ["a", "OK", "NO x", "{3}", "x ACTIVE", 'a"b', "a\\b", "é", '"', "ACTIVE", "b c", "{3+}", "cafe\u0301", "\u212b", "holiday ", " old"]
 
 
 def norm_lines(b):
